@@ -5,13 +5,15 @@ import vlib
 
 HARNESS = ["acpi/c14_acpi_test.go"]
 PKG = ("kernel", "device/acpi")
-DESIGN_BUGS_QUICK = ["Ext40", "StopOnBad", "RevInverted"]
-DESIGN_BUGS_FULL = ["NoRsdpChecksum", "RevInverted", "Ext40", "NoTableChecksum", "StopOnBad", "DsdtFromBadFadt", "WidthSwapped", "IgnoreXdsdt", "Sig7"]
+DESIGN_BUGS_QUICK = ["Ext40", "StopOnBad", "Trunc32"]
+DESIGN_BUGS_FULL = ["NoRsdpChecksum", "RevInverted", "Ext40", "NoTableChecksum", "StopOnBad", "DsdtFromBadFadt", "WidthSwapped", "IgnoreXdsdt", "Sig7", "Trunc32"]
 XDSDT = "xdsdt-only"     # id of the rule-shaped known finding (DESIGN section 6 item 7b), honoured only while listed in known_findings.json
 ASSUME = [
     "firmware images in ACPI's packed binary layout: root pointer 20 bytes (revision 0) or 36 bytes (extended), FADT with DSDT at offset 40 and X_DSDT at 140, "
     "root tables (RSDT 4-byte entries, XSDT 8-byte entries) with revision field 1 as real firmware has; both root tables are present, checksum-valid and "
     "list different tables so that the choice of the root is observable",
+    "structures that only 64-bit pointers refer to (the XSDT, tables listed by it alone, a DSDT behind X_DSDT alone) are placed, in about half of the images, in a second "
+    "area at or above 4 GiB whose addresses modulo 2^32 are reserved PROT_NONE: a 64-bit address cut to 32 bits faults or names no root table",
     "at most one root-pointer candidate has a valid checksum; a revision >= 1 candidate with a valid 36-byte sum always has a valid 20-byte sum too "
     "(the statement says 'its checksum'); decoys may sit before and after it; candidates lie wholly inside the search window and >= 3 slots apart",
     "tables have distinct signatures; a corrupted table has one byte at an offset >= 8 changed after the checksum was set (signature and length intact); "
@@ -89,7 +91,7 @@ def run(ctx):
     ctx.rule = ("case = one abstract firmware image (root-pointer candidates with slot/revision/checksum state, two root tables, tables with good or "
                 "corrupted checksum, FADT pointer mode, DSDT); leg G runs every image TLC enumerated in the small scope (4 window slots mapped to real slots "
                 "0/3/4100/8189 x every arrangement of valid/decoy candidates; every list of <= MaxT tables in every order with every good/bad assignment, "
-                "FADT 32/64/both, DSDT good/bad); leg T runs seeded random images (<= 14 tables, any of the 8190 slots, noise-filled window, revisions "
+                "FADT 32/64/both, DSDT good/bad, 64-bit-only structures low or above 4 GiB); leg T runs seeded random images (<= 14 tables, any of the 8190 slots, noise-filled window, revisions "
                 "0/1/2/3/255); a case is distinct by its image and non-trivial when it has a candidate or a table")
     d = ctx.spec_dir("acpi")
     tier = "Quick" if q else "Full"
